@@ -54,6 +54,30 @@ func (p *poolRecorder) observe(put bool, b *bytes.Buffer) {
 	p.mu.Unlock()
 }
 
+// codecRecorder: the same for compressors / decompressors entering and leaving their sync.Pools
+type codecRecorder struct {
+	mu     sync.Mutex
+	ids    map[any]int
+	events []string
+}
+
+func (p *codecRecorder) observe(put bool, codec any) {
+	p.mu.Lock()
+	id, ok := p.ids[codec]
+	if !ok {
+		id = len(p.ids) + 1
+		p.ids[codec] = id
+	}
+	if len(p.events) < 200000 {
+		if put {
+			p.events = append(p.events, fmt.Sprintf("p%d", id))
+		} else {
+			p.events = append(p.events, fmt.Sprintf("g%d", id))
+		}
+	}
+	p.mu.Unlock()
+}
+
 func payloadFor(g, k, size int) []byte {
 	tag := fmt.Sprintf("<g%02d-k%03d>", g, k)
 	return bytes.Repeat([]byte(tag), 1+size/len(tag))
@@ -65,6 +89,9 @@ func streamConc(c *Ctx) {
 	rec := &poolRecorder{ids: map[*bytes.Buffer]int{}}
 	connect.VerifSetPoolObserver(rec.observe)
 	defer connect.VerifSetPoolObserver(nil)
+	crec := &codecRecorder{ids: map[any]int{}}
+	connect.VerifSetCodecPoolObserver(crec.observe)
+	defer connect.VerifSetCodecPoolObserver(nil)
 
 	newSlow := func() connect.Compressor { return &slowRLECompressor{} }
 	hopts := []connect.HandlerOption{connect.WithCodec(rawCodec{"raw"}), connect.WithCompression("rle", newRLEDecompressor, newSlow), connect.WithCompressMinBytes(8)}
@@ -92,6 +119,15 @@ func streamConc(c *Ctx) {
 			}
 		}
 	}, hopts...))
+	// the same echo behind a read limit: over-limit (after decompression) calls are rejected and
+	// must leave the shared decompressors usable for the valid calls around them
+	const readLimit = 2048
+	mux.Handle("/s/limited", connect.NewUnaryHandler("/s/limited", func(ctx context.Context, r *connect.Request[[]byte]) (*connect.Response[[]byte], error) {
+		out := echo(*r.Msg)
+		res := connect.NewResponse(&out)
+		res.Header().Set("X-Call-Id", r.Header().Get("X-Call-Id"))
+		return res, nil
+	}, append(hopts, connect.WithReadMaxBytes(readLimit))...))
 	mux.Handle("/s/fail", connect.NewUnaryHandler("/s/fail", func(ctx context.Context, r *connect.Request[[]byte]) (*connect.Response[[]byte], error) {
 		e := connect.NewError(connect.CodeFailedPrecondition, fmt.Errorf("failed for %s", r.Header().Get("X-Call-Id")))
 		e.Meta().Set("X-Call-Id", r.Header().Get("X-Call-Id"))
@@ -115,6 +151,8 @@ func streamConc(c *Ctx) {
 		bidi  *connect.Client[[]byte, []byte]
 		fail  *connect.Client[[]byte, []byte]
 		nost  *connect.Client[[]byte, []byte]
+		lim   *connect.Client[[]byte, []byte]
+		comp  string
 	}
 	var sets []clientSet
 	for _, proto := range []string{"connect", "grpc", "grpcweb"} {
@@ -129,6 +167,8 @@ func streamConc(c *Ctx) {
 				bidi:  connect.NewClient[[]byte, []byte](srv.Client(), srv.URL+"/s/bidi", opts...),
 				fail:  connect.NewClient[[]byte, []byte](srv.Client(), srv.URL+"/s/fail", opts...),
 				nost:  connect.NewClient[[]byte, []byte](srv.Client(), srv.URL+"/s/nostatus", opts...),
+				lim:   connect.NewClient[[]byte, []byte](srv.Client(), srv.URL+"/s/limited", opts...),
+				comp:  comp,
 			})
 		}
 	}
@@ -172,6 +212,29 @@ func streamConc(c *Ctx) {
 						_ = res.Body.Close()
 					}
 					c.Count("conc:corrupt")
+				}
+				if k%3 == 1 && set.comp != "" {
+					// behind the read limit: an over-limit message (small on the wire, large after
+					// decompression) every other time, a valid compressible one otherwise
+					over := (g+k)%2 == 0
+					body := append(bytes.Repeat([]byte{byte('a' + g%26)}, 900), []byte(id)...)
+					if over {
+						body = append(bytes.Repeat([]byte{byte('A' + g%26)}, 3*readLimit), []byte(id)...)
+					}
+					req := connect.NewRequest(&body)
+					req.Header().Set("X-Call-Id", id)
+					res, err := set.lim.CallUnary(ctx, req)
+					c.Count("conc:limited")
+					switch {
+					case over && err == nil:
+						fail("conc-limit-not-enforced", desc, "ok", "a message decompressing to 3x the read limit was accepted")
+					case over && connect.CodeOf(err) != connect.CodeInvalidArgument && connect.CodeOf(err) != connect.CodeResourceExhausted:
+						fail("conc-call-failed", desc, err.Error(), "an over-limit call failed with an unexpected error")
+					case !over && err != nil:
+						fail("conc-call-failed", desc, err.Error(), "a valid call behind the read limit failed while over-limit calls ran concurrently")
+					case !over && !bytes.Equal(*res.Msg, echo(body)):
+						fail("conc-crosstalk", desc, string((*res.Msg)[:min(len(*res.Msg), 40)]), "the response is not this call's own payload")
+					}
 				}
 				switch k % 4 {
 				case 0, 1:
@@ -283,7 +346,22 @@ func streamConc(c *Ctx) {
 		}
 		c.Emit("pool.trace "+strings.Join(events[i:end], " "), verdict, true)
 	}
-	c.Note("%d goroutines x %d calls over %d client configurations; %d pool events recorded", G, K, len(sets), len(events))
+	// … and the (de)compressor pools
+	crec.mu.Lock()
+	cevents := crec.events
+	crec.mu.Unlock()
+	for i := 0; i < len(cevents); i += 4000 {
+		end := i + 4000
+		if end > len(cevents) {
+			end = len(cevents)
+		}
+		verdict := traceVerdict(cevents[i:end])
+		if verdict != "accepted" {
+			c.Fail("conc-codec-pool-discipline", fmt.Sprintf("recorded compressor/decompressor pool trace, events %d..%d", i, end), verdict, "a compressor or decompressor was handed out while still out, or returned twice (event index in the chunk)")
+		}
+		c.Emit("pool.trace "+strings.Join(cevents[i:end], " "), verdict, true)
+	}
+	c.Note("%d goroutines x %d calls over %d client configurations; %d buffer-pool and %d codec-pool events recorded", G, K, len(sets), len(events), len(cevents))
 }
 
 // traceVerdict: the implementation-side statement is simply what happened; a well-behaved pool
